@@ -103,7 +103,7 @@ func menu(which string) []event {
 	var out []event
 	for _, e := range m {
 		switch e.name {
-		case "reconcile", "src=v1", "src=v2", "retag-v1", "registry-fail-toggle", "pull-ifnotpresent-toggle":
+		case "reconcile", "src=v1", "src=v2", "src=v1b", "retag-v1", "registry-fail-toggle", "pull-ifnotpresent-toggle", "revision-controller-finalizes":
 			out = append(out, e)
 		}
 	}
@@ -128,6 +128,15 @@ func menuAll(thorough bool) []event {
 					p.Spec.RevisionActivationPolicy = &m
 				}
 			})
+		}},
+		{"revision-controller-finalizes", func(w *world) {
+			// The revision controller lets go of revisions whose deletion
+			// was requested (until then they linger, terminating).
+			for _, u := range w.s.All(revGK) {
+				if u.GetDeletionTimestamp() != nil {
+					w.s.Mutate(simkube.KeyOf(u), func(o *unstructured.Unstructured) { o.SetFinalizers(nil) })
+				}
+			}
 		}},
 		{"retag-v1", func(w *world) {
 			if w.reg.Table[repoName+":v1"] == "A" {
@@ -216,12 +225,21 @@ func body(r *explore.Run, rep *report.R, sc string, depth int, which string, sta
 		if len(revisions(s)) != 2 {
 			panic(explore.HarnessError{Msg: "history preparation: " + describe(revisions(s))})
 		}
+		for _, u := range s.All(revGK) {
+			s.Mutate(simkube.KeyOf(u), func(o *unstructured.Unstructured) { o.SetFinalizers([]string{"revision.pkg.crossplane.io"}) })
+		}
 	}
 
 	// A1 on every effective write.
 	s.OnWrite = append(s.OnWrite, func(wr *simkube.WriteRecord) {
 		if wr.Call.Client != "pkgmgr" {
 			return
+		}
+		// The revision controller puts its finalizer on every new revision,
+		// so a revision whose deletion is requested lingers until that
+		// controller has cleaned up.
+		if wr.Call.Key.GK() == revGK && wr.Before == nil && wr.After != nil {
+			s.Mutate(wr.Call.Key, func(o *unstructured.Unstructured) { o.SetFinalizers([]string{"revision.pkg.crossplane.io"}) })
 		}
 		n := 0
 		rs := revisions(s)
@@ -236,22 +254,41 @@ func body(r *explore.Run, rep *report.R, sc string, depth int, which string, sta
 	})
 	var trail []string
 	reconciles, faulted := 0, 0
-	// possible[source]: the revision names of every digest the source's tag
-	// has pointed at during this history (re-tags included). Whatever the pull
-	// policy and whether or not a reconcile asks the registry, the revision it
-	// makes current must be one of them for the package's source.
-	possible := map[string]map[string]bool{}
-	track := func() {
-		for src, l := range reg.Table {
-			if possible[src] == nil {
-				possible[src] = map[string]bool{}
-			}
-			possible[src][xpkg.FriendlyID("p", pkgh.Digest(l))] = true
+	// acc: the revisions a completed reconcile may leave as current. While
+	// the controller keeps seeing the source it resolved last (lastSrc), the
+	// tag may or may not be resolved again (pull policy), so every digest the
+	// tag has pointed at since then is acceptable. When a reconcile meets
+	// another source than the one resolved last, that source has to be
+	// resolved then: only the digests its tag points at from that reconcile
+	// on are acceptable (pending collects them across reconciles that were
+	// hit by a fault and may or may not have got that far).
+	acc, pending, lastSrc := map[string]bool{}, map[string]bool{}, ""
+	nameOf := func(src string) string {
+		if l, ok := reg.Table[src]; ok {
+			return xpkg.FriendlyID("p", pkgh.Digest(l))
 		}
+		return ""
+	}
+	srcNow := func() string {
+		pk := &v1.Provider{}
+		s.PeekInto(pkgKey, pk)
+		return pk.Spec.Package
+	}
+	track := func() {
+		if src := srcNow(); src == lastSrc {
+			if n := nameOf(src); n != "" {
+				acc[n] = true
+			}
+		}
+	}
+	if pk := (&v1.Provider{}); s.PeekInto(pkgKey, pk) && pk.Status.CurrentRevision != "" {
+		// a prepared start state: the source was resolved during preparation
+		lastSrc = pk.Spec.Package
+		acc[pk.Status.CurrentRevision] = true
 	}
 	track()
 	for step := 0; step < depth; step++ {
-		r.SeenRank(report.Hash(s.Canonical(), regKey(reg), fmt.Sprint(possible)), depth-step)
+		r.SeenRank(report.Hash(s.Canonical(), regKey(reg), lastSrc, fmt.Sprint(acc), fmt.Sprint(pending)), depth-step)
 		e := evs[r.Free(len(evs), fmt.Sprintf("ev%d", step))]
 		trail = append(trail, e.name)
 		if e.do != nil {
@@ -329,18 +366,34 @@ func body(r *explore.Run, rep *report.R, sc string, depth int, which string, sta
 			}
 		}
 		// A2 (source): a completed, fault-free reconcile - whether or not it
-		// asked the registry - leaves as current revision one of a digest the
-		// current source's tag has pointed at.
+		// asked the registry - leaves as current revision one the source
+		// stands for (see acc above).
+		src := pkg.Spec.Package
 		if out.Err == nil && !out.Result.Requeue && out.Crashed == nil && !wasFaulted {
+			if src != lastSrc {
+				acc = map[string]bool{}
+				for n := range pending {
+					acc[n] = true
+				}
+				pending, lastSrc = map[string]bool{}, src
+			}
+			if n := nameOf(src); n != "" {
+				acc[n] = true
+			}
 			pk := &v1.Provider{}
 			s.PeekInto(pkgKey, pk)
-			if cr := pk.Status.CurrentRevision; cr != "" && !possible[pk.Spec.Package][cr] {
+			if cr := pk.Status.CurrentRevision; cr != "" && !acc[cr] {
 				var ps []string
-				for k := range possible[pk.Spec.Package] {
+				for k := range acc {
 					ps = append(ps, k)
 				}
 				sort.Strings(ps)
-				r.Failf("A2/current-not-for-source", "a completed reconcile leaves %s as the current revision of source %s, whose tag has only ever pointed at %v (registry failing: %v; revisions %s)", cr, pk.Spec.Package, ps, reg.Fail, describe(post))
+				r.Failf("A2/current-not-for-source", "a completed reconcile leaves %s as the current revision of source %s; since the controller first met that source its tag has only pointed at %v (registry failing: %v; revisions %s)", cr, pk.Spec.Package, ps, reg.Fail, describe(post))
+			}
+		} else if src != lastSrc {
+			// This reconcile may or may not have resolved the new source.
+			if n := nameOf(src); n != "" {
+				pending[n] = true
 			}
 		}
 		// A2 after a completed, fault-free reconcile that resolved the source.
@@ -384,7 +437,7 @@ func body(r *explore.Run, rep *report.R, sc string, depth int, which string, sta
 func TestCheck(t *testing.T) {
 	rep := report.New("C14", "fault_enumeration")
 	rep.Meta(
-		"Executions are event sequences of bounded depth over menus drawn from {reconcile (real manager.Reconciler + PackageRevisioner, scripted registry), source edits to 3-4 tags incl. rollbacks and a second tag of the same digest, revisionHistoryLimit edits, activation policy toggle, registry re-tag / failure, pull policy, revision health} (base menu: the first 8; registry menu: reconcile, two sources, re-tag, registry failure, IfNotPresent, from an established package; thorough adds the full 14-event menu at depth-1); every API write of a reconcile is a fault point {error-before, conflict, error-after, crash-before, crash-after} (<= F deviations per sequence). DFS with state-hash pruning ranked by remaining depth. Non-trivial: sequences with >= 2 reconciles; distinct by (event trail, faults).",
+		"Executions are event sequences of bounded depth over menus drawn from {reconcile (real manager.Reconciler + PackageRevisioner, scripted registry), source edits to 3-4 tags incl. rollbacks and a second tag of the same digest, revisionHistoryLimit edits, activation policy toggle, registry re-tag / failure, pull policy, revision health, the revision controller finalizing revisions whose deletion was requested (until then they linger)} (base menu: the first 8; registry menu: reconcile, two sources, re-tag, registry failure, IfNotPresent, from an established package; thorough adds the full 14-event menu at depth-1); every API write of a reconcile is a fault point {error-before, conflict, error-after, crash-before, crash-after} (<= F deviations per sequence). DFS with state-hash pruning ranked by remaining depth. Non-trivial: sequences with >= 2 reconciles; distinct by (event trail, faults).",
 		[]string{"simkube models the API server", "the registry is a scripted xpkg.Fetcher (tag -> digest table)", "'at most one Active' is judged on writes made by the package manager; no event makes a user activate a second revision"},
 		[]string{"simkube", "go-containerregistry name parsing (real)"},
 	)
